@@ -6,7 +6,7 @@
 patch=$1; demo=$2; race=$3
 export GOFLAGS=-mod=mod GOPROXY=off GOSUMDB=off
 w=$(mktemp -d /tmp/confirm.XXXXXX)
-(cd /repo && git ls-files -z | xargs -0 cp --parents -t "$w") || exit 2
+(cd "${VERIF_REPO_SRC:-/repo}" && git ls-files -z | xargs -0 cp --parents -t "$w") || exit 2
 cd "$w" || exit 2
 tests=$(grep -oh 'func Test[A-Za-z0-9_]*' "$demo" | sed 's/func //' | paste -sd'|')
 flags="-count=1"; [ "$race" = race ] && flags="$flags -race"
